@@ -74,6 +74,17 @@ def gen_case(rng, tier):
             dname = dprog[1]
             g.leaves[dname] = {"engine": eng, "cols": sorted(state[1]), "rows": [], "kind": "doomed"}
             state = ((["chain", dprog, state[0]] if rng.random() < 0.5 else ["chain", state[0], dprog]), state[1], state[2])
+        calc_first = g.unary(state, "calc") if rng.random() < 0.15 else None
+        if calc_first is not None:
+            # the materialization sits on a transfer, directly or under one or two user-defined
+            # markers (MarkerRelation subclasses that only annotate their target).  The pipeline
+            # ends in a calculation so that what gets cached is not just the leaf's own payload.
+            state = calc_first
+            dest = rng.choice([e for e in ("it", "it2") if e != eng])
+            state = (["xfer", state[0], dest], state[1], dest)
+            for _ in range(rng.randint(0, 2)):
+                state = (["mark", state[0], rng.choice(["tag", "note"])], state[1], dest)
+            eng = dest
         cores.append({"prog": ["mat", state[0], f"CORE{i}"], "cols": sorted(state[1]), "engine": eng, "leaf": leaf_name})
     return {"leaves": g.leaves, "cores": cores, "seed": rng.randint(0, 10**9), "steps": rng.randint(20, 45) if tier == "quick" else rng.randint(45, 120)}
 
